@@ -518,3 +518,98 @@ func TestPreCommitRegime(t *testing.T) {
 		Floors:   map[string]float64{"forward-grouped": 0.15},
 	})
 }
+
+// ---------------------------------------------------------------- batch independence
+
+func annotateParents(c *Case, only int) ([]any, error) {
+	ds := c.BuildDS()
+	opts := []annotate.Option{annotate.Threshold(time.Duration(c.Eps) * time.Second)}
+	var parents []any
+	var err error
+	if c.ParentIsWay {
+		ways := c.BuildWays()
+		if only >= 0 {
+			ways = ways[only : only+1]
+		}
+		for _, w := range ways {
+			parents = append(parents, w)
+		}
+		err = annotate.Ways(context.Background(), ways, ds, opts...)
+	} else {
+		rels := c.BuildRelations()
+		if only >= 0 {
+			rels = rels[only : only+1]
+		}
+		for _, r := range rels {
+			parents = append(parents, r)
+		}
+		err = annotate.Relations(context.Background(), rels, ds, opts...)
+	}
+	return parents, err
+}
+
+// Which child version a parent version references is a function of that parent
+// version and the child histories, so it must not depend on which other parent
+// versions are annotated in the same call (the update lists do, by design).
+func checkBatchIndependence(c Case) error {
+	all, err := annotateParents(&c, -1)
+	if err != nil {
+		return nil // an inconsistency somewhere in the batch: nothing to compare
+	}
+	for pi, p := range c.Parents {
+		alone, err := annotateParents(&c, pi)
+		if err != nil {
+			return harness.Failf("C11/batch-dependence", "parent v%d annotates fine together with the other versions but fails alone: %v", p.Ver, err)
+		}
+		for j := range p.Refs {
+			if a, b := childAnn(all[pi], j), childAnn(alone[0], j); a != b {
+				return harness.Failf("C11/batch-dependence", "parent v%d (t=%d) child ref %d (%v): annotated %+v when all %d versions are annotated together, %+v when annotated alone (eps %ds, parents %+v, history %+v)", p.Ver, p.At, j, c.FeatureID(p.Refs[j]), a, len(c.Parents), b, c.Eps, c.Parents, c.Children[p.Refs[j]].Versions)
+			}
+		}
+	}
+	return nil
+}
+
+func TestBatchIndependence(t *testing.T) {
+	harness.Run(t, harness.Spec[Case]{
+		Name: "batch-independence", N: 6000,
+		Rule: "pre-commit histories WITHOUT window discipline (several child versions inside one threshold window, parent versions closer than the threshold, any changesets) and commit-regime histories; metamorphic oracle only: the child version/changeset/location annotated on parent version i is the same whether all versions are annotated in one call or version i alone; non-trivial = >= 2 parent versions and a child with >= 2 versions inside one parent's threshold window (or any commit-regime case with >= 2 parents)",
+		Gen: func(t *rapid.T) Case {
+			if rapid.IntRange(0, 3).Draw(t, "commit") == 0 {
+				c := histgen.Gen(t, histgen.Opts{Regime: histgen.Commit, NoErrors: true})
+				c.Reject = nil
+				for i := range c.Parents {
+					for j := range c.Parents[i].PreAnn {
+						c.Parents[i].PreAnn[j] = false
+					}
+				}
+				return c
+			}
+			return histgen.Gen(t, histgen.Opts{Regime: histgen.Pre, Free: true})
+		},
+		Check: checkBatchIndependence,
+		Classify: func(c Case) (bool, []string) {
+			crowded := false
+			for _, p := range c.Parents {
+				for _, ci := range p.Refs {
+					n := 0
+					for _, v := range c.Children[ci].Versions {
+						if v.At >= p.At-c.Eps && v.At <= p.At+c.Eps {
+							n++
+						}
+					}
+					if n >= 2 {
+						crowded = true
+					}
+				}
+			}
+			var cl []string
+			if crowded {
+				cl = append(cl, "several-versions-in-one-window")
+			}
+			return len(c.Parents) >= 2 && (crowded || c.Regime == histgen.Commit), cl
+		},
+		Describe: describe,
+		Floors:   map[string]float64{"several-versions-in-one-window": 0.3},
+	})
+}
